@@ -186,6 +186,9 @@ def get_amp(case):
     if 'custom' in case['amp']:
         return custom_amp(case['amp']['custom']), None
     a, alldict = lib[(case['amp']['lib'], case['amp']['variety'])]
+    if case['amp'].get('dgt_override'):
+        a = copy.deepcopy(a)
+        a.dgt = list(case['amp']['dgt_override'])
     return a, alldict
 
 
@@ -265,6 +268,9 @@ def oracle(case, rec):
             fails.append((key, f"{rec['out']}: {rec.get('exc', '')[:100]} with {per_band} channels in band"))
         return fails
     out = rec['out']
+    for o in rec['amps']:
+        if any(not math.isfinite(x) for x in o['gprofile']):
+            return [('nonfinite_gain', f"gain profile {o['gprofile'][:3]}... for set gain {o['gain_target']}")]
     # out-of-band channels are not amplified (they are not propagated at all); every in-band channel is
     bands = [(o['f_min'], o['f_max']) for o in rec['amps']]
     allb = [(e.params.f_min, e.params.f_max) for e in rec['edfas']]
@@ -475,7 +481,7 @@ def run(ctx):
     if ctx.replay:
         cases = [json.load(open(ctx.replay))['case']]
     else:
-        n = ctx.scale(260, 5000)
+        n = ctx.scale(260, 3000)
         # every library entry at least once, then random
         for k in keys:
             c = None
@@ -514,8 +520,12 @@ def run(ctx):
             ctx.count('clamped')
         if any(op['tilt_target'] != 0 for op in c['op']):
             ctx.count('tilted')
-        for key, desc in oracle(c, rec):
+        fails = oracle(c, rec)
+        for key, desc in fails:
             ctx.violation(key, desc, strip(c))
+        if any(k == 'nonfinite_gain' for k, _ in fails):
+            ctx.count('skipped_nonfinite')       # nothing finite to compare with the model
+            continue
         if c['multi']:
             terms.append('run_multi ' + listlit([amp_term(e, op, tb)[1:-1] for e, op in zip(rec['edfas'], c['op'])]) + ' ' + chan_terms(c['chan']))
         else:
@@ -578,4 +588,10 @@ def run(ctx):
         'fixed-gain / OpenROADM / polynomial (advanced_model) / dual-stage NF formulas are tied by correspondence only; '
         'the theorems about NF are for the variable-gain (nf_min/nf_max) model',
     ]
-    return common.finish(ctx, {})
+
+    def flat_dgt_tilt(v):
+        a = v['case'].get('amp', {})
+        d = a.get('dgt_override')
+        return (v['key'] == 'nonfinite_gain' and bool(d) and max(d) == min(d)
+                and any(op['tilt_target'] != 0 for op in v['case']['op']))
+    return common.finish(ctx, {'C04-flat-dgt-tilt-nonfinite': flat_dgt_tilt})
